@@ -1,5 +1,5 @@
-\* the code as it is (forward-only era unfolding): TLC is expected to refute
-\* RoundTrip / EraOK here; the counterexample is replayed on the real functions
+\* spec self-test: the OLD code (forward-only era unfolding, before commit 28e9272).
+\* TLC must refute RoundTrip / EraOK here; the counterexample is replayed on the real functions
 SPECIFICATION Spec
 CONSTANTS
   NsPerSec = 1000
